@@ -169,30 +169,3 @@ func VerifH_C18_d() {
 	vAssert("copy/structure-unchanged", sameShape(cp.root, ref.root))
 	vAssert("original/structure-depends-only-on-content", sameShape(orig.root, after.root))
 }
-
-// H-C18-e: the streaming trie (StackTrie, used for transaction / receipt / ETX roots) and the full
-// trie compute the same root for the same content. A list of 1..3 items under the keys DeriveSha uses
-// (RLP of the index: 0x01, 0x02, then 0x80 for index 0), each value of arbitrary length 1..9 bytes
-// and arbitrary content: StackTrie.Hash() == Trie.Hash(). (Node encodings and the embed-or-hash
-// boundary at 32 bytes are executed from the real code; keccak is a collision-free uninterpreted
-// function, so equal roots mean byte-identical root node encodings.)
-//
-// verif:bounds split=64 decisions=400 paths=20000
-func VerifH_C18_e() {
-	n := 1 + vLen("extraItems", 2)
-	keys := [][]byte{{0x01}, {0x02}, {0x80}}
-	if n == 1 {
-		keys = [][]byte{{0x80}}
-	} else if n == 2 {
-		keys = [][]byte{{0x01}, {0x80}}
-	}
-	st := NewStackTrie(nil)
-	tr := new(Trie)
-	for i := 0; i < n; i++ {
-		v := vBytes("value"+string(rune('A'+i)), 1+vLen("extraLen"+string(rune('A'+i)), 8))
-		st.Update(keys[i], v)
-		tr.Update(keys[i], v)
-	}
-	vReach("built")
-	vAssert("root/stacktrie-equals-trie", st.Hash() == tr.Hash())
-}
